@@ -1,18 +1,18 @@
 SPECIFICATION MCSpec
 CONSTANTS
   C = 2
-  MaxParts = 3
+  MaxParts = 2
   Amts = {1, 3, 4, 5}
-  Tots = {3, 4, 5}
-  Secs = {"ok", "flip", "other"}
-  Cls = {"far"}
+  Tots = {4}
+  Secs = {"ok"}
+  Cls = {"far", "far2", "b0", "b1", "b2", "m-1", "m0"}
   RegAmt = 4
-  RegMin = 0
+  RegMin = 50
   BUF = 39
   MPPT = 1
   MaxTicks = 1
-  MaxBlocks = 0
-  MaxDev = 1
+  MaxBlocks = 2
+  MaxDev = 2
   MaxOps = 6
   StaleClaim = FALSE
 CONSTRAINT Bound
